@@ -365,8 +365,37 @@ func runC05(r *core.Run) {
 				if f != nil {
 					m := tensor.VerifMetaOf(b.T)
 					f.Kind += c05Tag(m, b.T)
+					return f
 				}
-				return f
+				// the channel form of the same iterator, and the generic constructors, deliver the same sequence
+				for _, form := range []string{"Chan", "IteratorFromDense", "t.Iterator"} {
+					var got []int
+					o := call(func() error {
+						switch form {
+						case "Chan":
+							for i := range tensor.FlatIteratorFromDense(b.T).Chan() {
+								got = append(got, i)
+							}
+						case "IteratorFromDense":
+							it := tensor.IteratorFromDense(b.T)
+							for i, e := it.Next(); e == nil; i, e = it.Next() {
+								got = append(got, i)
+							}
+						case "t.Iterator":
+							it := b.T.Iterator()
+							for i, e := it.Next(); e == nil; i, e = it.Next() {
+								got = append(got, i)
+							}
+						}
+						return nil
+					})
+					r.Op(len(got) + 1)
+					r.Outcome(form + ":" + o.Class)
+					if o.Class != "ok" || !ref.EqInts(got, sim.offs) {
+						return core.F("wrong-value", form, "%s yields offsets %v (%s), expected %v", form, got, o, sim.offs)
+					}
+				}
+				return nil
 			})
 		}
 	}
